@@ -1,13 +1,17 @@
 import Mieru.Gen.Consts
 import Mieru.Proofs.Discovery
 import Mieru.Proofs.SrcCache
+import Mieru.Proofs.Session
+import Mieru.Model.Reload
+import Mieru.Proofs.SrcCacheGen
 /-!
 # C07 — sessions are attributed to the authenticating user despite caches and reloads
 
 Model: `Mieru.Discovery.tryState` (pkg/protocol/serveruser/registry.go) over a generation of `n`
 users with ids `1..n` in name order, abstract `hint`/`auth` predicates, arbitrary cached ids;
-`Mieru.SrcCache` (source_user_cache.go, one bucket); the reload transition system
-`Mieru.Discovery.Step`.  Tied to the code on every run by harness/props/c07.go.
+`Mieru.SrcCache` (source_user_cache.go, one bucket); `Mieru.Session` (the server branch of
+`readOneSegment` on both underlays: existing-session match ∨ Discover); `Mieru.Reload` (`SetUsers` ‖
+`discoverUser` with the user sets).  Tied to the code on every run by harness/props/c07*.go.
 -/
 set_option linter.unusedSimpArgs false
 set_option linter.unusedVariables false
@@ -309,87 +313,6 @@ theorem lookup_stale_ids_harmless :
   unfold tryState
   simp only [cp_filter_valid]
 
-/-! ## reload: `SetUsers` ‖ `Discover` -/
-
-/-- generation `g` was the published one at some instant since discovery started in `s0` -/
-def CurrentSince (s0 s : Sys) (g : Nat) : Prop :=
-  g = s0.published ∨ (g ∈ s.history ∧ g ∉ s0.history)
-
-theorem reach_inv (rc : Bool) (s0 s : Sys) (h0 : s0.disc = .idle) (hr : Reach rc s0 s) :
-    (∀ x, x ∈ s0.history → x ∈ s.history) ∧
-    CurrentSince s0 s s.published ∧
-    (∀ g, s.disc = .tried g ∨ s.disc = .returned g → CurrentSince s0 s g) := by
-  induction hr with
-  | refl =>
-    refine ⟨fun _ h => h, Or.inl rfl, ?_⟩
-    intro g hg
-    rw [h0] at hg
-    rcases hg with hg | hg <;> cases hg
-  | step _ hstep ih =>
-    obtain ⟨hmono, hpub, hdisc⟩ := ih
-    cases hstep with
-    | reload g hfresh =>
-      refine ⟨fun x hx => List.mem_append.mpr (Or.inl (hmono x hx)), ?_, ?_⟩
-      · right
-        exact ⟨List.mem_append.mpr (Or.inr (List.mem_singleton.mpr rfl)), fun hin => hfresh (hmono g hin)⟩
-      · intro g' hg'
-        rcases hdisc g' hg' with h | ⟨h1, h2⟩
-        · exact Or.inl h
-        · exact Or.inr ⟨List.mem_append.mpr (Or.inl h1), h2⟩
-    | load hidle =>
-      refine ⟨hmono, hpub, ?_⟩
-      intro g' hg'
-      simp only [DPhase.tried.injEq, reduceCtorEq, or_false] at hg'
-      subst hg'
-      exact hpub
-    | retry g hd hreq hne =>
-      refine ⟨hmono, hpub, ?_⟩
-      intro g' hg'
-      rcases hg' with hg' | hg' <;> cases hg'
-    | ret g hd hok =>
-      refine ⟨hmono, hpub, ?_⟩
-      intro g' hg'
-      simp only [reduceCtorEq, DPhase.returned.injEq, false_or] at hg'
-      subst hg'
-      exact hdisc g (Or.inl hd)
-
-/-- OVER ALL INTERLEAVINGS of reloads with one discovery (with or without `requireCurrent`): the
-    generation a result is attributed to was the published one at some instant after the
-    discovery started -/
-theorem discover_generation_current (rc : Bool) (s0 s : Sys) (h0 : s0.disc = .idle)
-    (hr : Reach rc s0 s) (g : Nat) (hg : s.disc = .returned g) : CurrentSince s0 s g :=
-  (reach_inv rc s0 s h0 hr).2.2 g (Or.inr hg)
-
-/-- hence: once a reload has completed, a discovery that starts afterwards is never attributed to
-    a retired generation (so no credential that is no longer registered authenticates it) -/
-theorem discover_never_retired (rc : Bool) (s0 s : Sys) (h0 : s0.disc = .idle)
-    (hr : Reach rc s0 s) (old : Nat) (hold : old ∈ s0.history) (hne : old ≠ s0.published) :
-    s.disc ≠ .returned old := by
-  intro hg
-  rcases discover_generation_current rc s0 s h0 hr old hg with h | ⟨_, h⟩
-  · exact hne h
-  · exact h hold
-
-/-- with `requireCurrent` (TCP) the result is handed over only at an instant at which its
-    generation IS the published one -/
-theorem discover_requireCurrent_at_return (s s' : Sys) (g : Nat) (hstep : Step true s s')
-    (hbefore : ∀ g', s.disc ≠ .returned g') (hafter : s'.disc = .returned g) : s.published = g := by
-  cases hstep with
-  | reload g' hfresh => exact absurd hafter (hbefore g)
-  | load hidle => simp at hafter
-  | retry g' hd hreq hne => simp at hafter
-  | ret g' hd hok =>
-    simp only [DPhase.returned.injEq] at hafter
-    subst hafter
-    rcases hok with h | h
-    · cases h
-    · exact h
-
-/-- non-vacuity: a reload racing with a discovery; the stale result is retried -/
-example : Reach true ⟨0, [0], .idle, 0⟩ ⟨1, [0, 1], .returned 1, 0⟩ := by
-  refine .step (.step (.step (.step (.step (.refl _) (.load _ rfl)) (.reload _ 1 (by decide)))
-    (.retry _ 0 rfl rfl (by decide))) (.load _ rfl)) (.ret _ 1 rfl (Or.inr rfl))
-
 /-! ## the source-user cache -/
 
 open Mieru.SrcCache in
@@ -430,6 +353,61 @@ theorem lookup_sound (ops : List (Nat × Nat × Nat)) (key now : Nat) :
   · exact ⟨by simp, List.nodup_nil, by simp⟩
 
 open Mieru.SrcCache in
+/-- COMPOSED (audit U2): on what the cache can actually return — after ANY history of records, for
+    any key and instant — no user's decryptor runs twice in a `tryState`; the capacity hypothesis of
+    `tryState_each_user_once` is discharged by `lookup_sound` -/
+theorem tryState_on_lookup_each_user_once (ops : List (Nat × Nat × Nat)) (key now : Nat) :
+    (tryState n hint auth (lookup (run ops) key now) mandatory).tried.Nodup :=
+  tryState_each_user_once n hint auth _ mandatory (lookup_sound ops key now).2.2
+
+open Mieru.SrcCache in
+/-- MRU ORDER AND COMPLETENESS of `lookup` (audit W3) — for ANY bucket: if the first way holding
+    `key` is `e` and the source has not expired, `lookup` returns EXACTLY the users with a live
+    (non-empty, unexpired) slot in `e`, each with the age of its freshest live slot, sorted by that
+    age — most recently seen first — and stably (users of equal age in the order of the candidate
+    scan).  A `lookup` that returns `[]`, or the right users in another order, does not satisfy this. -/
+theorem lookup_mru_order (b : Bucket) (key now : Nat) (e : Entry)
+    (hfind : b.find? (isKey key) = some (some e)) (hlive : expired now e.lastActive = false) :
+    lookup b key now = (lookupAged b key now).map (·.1) ∧
+    (lookupAged b key now).Pairwise (fun a c => a.2 ≤ c.2) ∧
+    (∀ k, (lookupAged b key now).filter (fun c => c.2 == k)
+        = (candidates now e.users []).filter (fun c => c.2 == k)) ∧
+    (∀ id, id ∈ lookup b key now ↔ id ≠ 0 ∧ ∃ seen, (id, seen) ∈ e.users ∧ expired now seen = false) ∧
+    (∀ p ∈ lookupAged b key now,
+        (∃ seen, (p.1, seen) ∈ e.users ∧ expired now seen = false ∧ p.2 = age now seen) ∧
+        ∀ seen, (p.1, seen) ∈ e.users → expired now seen = false → p.2 ≤ age now seen) := by
+  have hl : lookup b key now = (sortByAge (candidates now e.users [])).map (·.1) := by
+    unfold lookup; rw [hfind]; simp [hlive]
+  have ha : lookupAged b key now = sortByAge (candidates now e.users []) := by
+    unfold lookupAged; rw [hfind]; simp [hlive]
+  obtain ⟨_, h2, h3, h4⟩ := candidates_ok_nil now e.users
+  have hperm := sortByAge_perm (candidates now e.users [])
+  refine ⟨by rw [hl, ha], by rw [ha]; exact sortByAge_sorted _, fun k => by rw [ha]; exact sortByAge_stable _ k, ?_, ?_⟩
+  · intro id
+    rw [hl]
+    constructor
+    · intro hin
+      obtain ⟨c, hc, hce⟩ := List.mem_map.mp hin
+      obtain ⟨hne, seen, hs, he, _⟩ := h2 c (hperm.mem_iff.mp hc)
+      subst hce
+      exact ⟨hne, seen, hs, he⟩
+    · rintro ⟨hne, seen, hs, he⟩
+      obtain ⟨c, hc, hce⟩ := List.mem_map.mp (h4 id seen hs hne he)
+      exact List.mem_map.mpr ⟨c, hperm.mem_iff.mpr hc, hce⟩
+  · intro p hp
+    rw [ha] at hp
+    have hp' := hperm.mem_iff.mp hp
+    obtain ⟨_, seen, hs, he, hage⟩ := h2 p hp'
+    exact ⟨⟨seen, hs, he, hage⟩, h3 p hp'⟩
+
+open Mieru.SrcCache in
+/-- non-vacuity: a way whose slots hold user 3 twice (ages 30 and 10), user 4 (age 10), an expired
+    slot of user 5 and an empty slot: users 3 and 4, each once, both of age 10, in slot order -/
+example : lookupAged [some ⟨7, 995, [(3, 970), (4, 990), (0, 0), (5, 300), (3, 990)]⟩] 7 1000 = [(3, 10), (4, 10)] ∧
+    lookupAged [some ⟨7, 995, [(4, 970), (3, 990)]⟩] 7 1000 = [(3, 10), (4, 30)] ∧
+    lookupAged [some ⟨7, 995, [(4, 970), (3, 990)]⟩] 7 1600 = [] := by decide
+
+open Mieru.SrcCache in
 /-- non-vacuity: two users recorded for source 7, one for a colliding source 9; the lookup for 7
     returns exactly the two, most recent first, and nothing of source 9 -/
 example : lookup (run [(7, 3, 100), (9, 5, 110), (7, 4, 120)]) 7 130 = [4, 3] := by decide
@@ -458,6 +436,97 @@ example : (tryState 3 (fun _ => false) (fun i => i == 2 || i == 3) [3] true).use
 example : (tryState 3 (fun i => i == 1) (fun i => i == 3) [0, 9, 2, 2, 1, 1] false)
     = { user := some (3, .registryFallback), tried := [1, 2, 3] } := by decide
 
+/-- (audit W2) `tryState_cache_independent` instantiated: only user 3 authenticates (distinct
+    credentials); a cache holding other users and one holding user 3, duplicates and a stale id
+    attribute the segment to the same user -/
+example : ((tryState 3 (fun _ => false) (fun i => i == 3) [1, 2] false).user.map (·.1))
+    = ((tryState 3 (fun _ => false) (fun i => i == 3) [3, 3, 9] false).user.map (·.1)) :=
+  tryState_cache_independent 3 _ _ [1, 2] false
+    (by intro v w _ _ hv hw; simp only [beq_iff_eq] at hv hw; omega) [3, 3, 9]
+
+/-! ## tie (T): the model against definitions REGENERATED from source_user_cache.go / registry.go
+(`Mieru.Gen.SrcCache`, written by tools/goextract/c07srccache.go from the current working tree on every run) -/
+
+/-- the model's wrapping 32-bit age IS the translation of `sourceUserCacheAge` (uint32 `now - then`) -/
+theorem srccache_age_eq_gen (now seen : Nat) :
+    Mieru.SrcCache.age now seen = Mieru.Gen.SrcCache.sourceUserCacheAge now seen :=
+  Mieru.SrcCache.age_eq_gen now seen
+
+/-- the model's expiry test IS the translation of `sourceUserCacheExpired` (`age >= 600`) -/
+theorem srccache_expired_eq_gen (now seen : Nat) :
+    Mieru.SrcCache.expired now seen = Mieru.Gen.SrcCache.sourceUserCacheExpired now seen :=
+  Mieru.SrcCache.expired_eq_gen now seen
+
+/-- the 64-bit slot word the code stores atomically carries exactly the pair (user id, tick) the model
+    keeps: `sourceUserCacheUnpackUser (sourceUserCachePackUser id tick) = (id, tick)` (mod 2^32) -/
+theorem srccache_slot_word_roundtrip (id tick : Nat) :
+    Mieru.Gen.SrcCache.sourceUserCacheUnpackUser (Mieru.Gen.SrcCache.sourceUserCachePackUser id tick)
+      = (id % 4294967296, tick % 4294967296) :=
+  Mieru.SrcCache.slot_word_roundtrip id tick
+
+open Mieru.Gen.SrcCache in
+/-- STRUCTURE PINNED (functions with 16-way loops over atomics are not translated; the conditions,
+    their order and the writes the model mirrors are extracted as source text and pinned here):
+    * `lookup`: first way with the key (`continue` otherwise), an expired source ends the search
+      (`break`), empty / expired slots skipped, a duplicate keeps the SMALLER age (`<`), insertion
+      sort shifts while STRICTLY younger (`<`: stable) — `Mieru.SrcCache.lookup/candidates/insertByAge`;
+    * `recordUser`: own slot, first empty, first expired, STRICTLY oldest live (`>`), chosen in that
+      order — `Mieru.SrcCache.pickSlot`;
+    * `recordAuthenticatedInTable`: first way holding the key; `lastActive` refreshed; a fresh entry
+      gets `lastActive = now` and the user in slot 0 — `Mieru.SrcCache.record/freshEntry`;
+    * `tryState`: the four phases in the model's order, the mandatory stop between the second and the
+      third, the skip conditions of each phase; `markUserIDAttempted`, `userByID` guards;
+    * `discoverUser`: empty generation returns at once, the `requireCurrent` re-check comes after
+      `tryState` and the seam and before the rejection — `Mieru.Reload.Step`;
+    * `SetUsers` swaps the pointer, `retire` detaches the table. -/
+theorem source_structure_pinned :
+    lookupConds = ["if c == nil => return", "if c.stats != nil", "if table == nil => return", "if c.stats != nil",
+      "for way := 0; way < sourceUserCacheWays; way++", "if entry == nil || entry.key != key => continue",
+      "if sourceUserCacheExpired(now, entry.lastActive.Load()) => break", "for i := 0; i < sourceUserCacheUsers; i++",
+      "if userID == 0 || sourceUserCacheExpired(now, seen) => continue", "for j := 0; j < count; j++",
+      "if candidates[j].id == userID => break", "if duplicate >= 0 => continue",
+      "if age < candidates[duplicate].age => candidates[duplicate].age = age", "for i := 1; i < count; i++",
+      "for ; j > 0 && candidate.age < candidates[j-1].age; ", "for i := 0; i < count; i++", "if count > 0 => return",
+      "if c.stats != nil", "if c.stats != nil"] ∧
+    recordUserConds = ["for i := 0; i < sourceUserCacheUsers; i++", "case id == userID && same < 0",
+      "case id == 0 && empty < 0", "case id != 0 && sourceUserCacheExpired(now, seen) && expired < 0",
+      "case id != 0 && !sourceUserCacheExpired(now, seen)", "if oldest < 0 || age > oldestAge",
+      "if slot < 0 => slot = empty", "if slot < 0 => slot = expired", "if slot < 0 => slot = oldest",
+      "if oldID == userID && oldTick == now => return",
+      "if entry.users[slot].CompareAndSwap(old, sourceUserCachePackUser(userID, now)) => return"] ∧
+    recordUserSlotChoice = ["slot := same", "if slot < 0 { slot = empty }", "if slot < 0 { slot = expired }",
+      "if slot < 0 { slot = oldest }"] ∧
+    recordUserStores = ["entry.users[slot].CompareAndSwap(old, sourceUserCachePackUser(userID, now))"] ∧
+    recordAuthenticatedInTableConds = ["if c == nil || table == nil || userID == 0 => return",
+      "for way := 0; way < sourceUserCacheWays; way++",
+      "if ways[way] != nil && ways[way].key == key && match < 0 => match = way", "if match >= 0 => return",
+      "if sourceExpired"] ∧
+    recordAuthenticatedInTableStores = ["entry.lastActive.Store(now)", "replacement.lastActive.Store(now)",
+      "replacement.users[0].Store(sourceUserCachePackUser(userID, now))", "bucket.ways[selection.way].Store(replacement)"] ∧
+    recordAuthenticatedConds = ["if c == nil || userID == 0 => return", "if table == nil => return"] ∧
+    registry_retireStores = ["c.table.Swap(nil)"] ∧
+    registry_SetUsersStores = ["r.users.Swap(state)"] ∧
+    registry_discoverUserConds = ["if len(encryptedMetadata) < cipher.DefaultNonceSize => return",
+      "if publisher == nil => return", "if state == nil || len(state.users) == 0 => return",
+      "if hintMandatory != nil => mandatory = hintMandatory.Load()", "if afterAttempt != nil",
+      "if requireCurrent && publisher.Load() != state => continue", "if result.block == nil => return",
+      "if state.cache != nil && state.cache.stats != nil && (result.origin == matchCachedHint || result.origin == matchCachedFallback)"] ∧
+    registry_tryStateConds = ["if source.valid && state.cache != nil => cachedIDs, cachedCount = state.cache.lookup(source.key)",
+      "for i := 0; i < cachedCount; i++",
+      "if user == nil || userIDWasAttempted(&attemptedCachedIDs, attemptedCachedCount, user.id) || !cipher.CheckUserFromHint([]byte(user.name), nonce) => continue",
+      "if result.block != nil => return", "if state.cache != nil && state.cache.stats != nil",
+      "if userIDWasAttempted(&attemptedCachedIDs, attemptedCachedCount, user.id) || !cipher.CheckUserFromHint([]byte(user.name), nonce) => continue",
+      "if result.block != nil => return", "if hintMandatory => return", "for i := 0; i < cachedCount; i++",
+      "if user == nil || userIDWasAttempted(&attemptedCachedIDs, attemptedCachedCount, user.id) => continue",
+      "if cipher.CheckUserFromHint([]byte(user.name), nonce) => continue", "if result.block != nil => return",
+      "if userIDWasAttempted(&attemptedCachedIDs, attemptedCachedCount, user.id) => continue",
+      "if cipher.CheckUserFromHint([]byte(user.name), nonce) => continue", "if result.block != nil => return"] ∧
+    tryStatePhases = ["matchCachedHint", "matchRegistryHint", "matchCachedFallback", "matchRegistryFallback"] ∧
+    registry_markUserIDAttemptedConds = ["if count < len(attempted) && !userIDWasAttempted(attempted, count, userID) => return"] ∧
+    registry_userByIDConds = ["if state == nil || userID == 0 || userID > uint32(len(state.users)) => return",
+      "if user.id != userID => return"] := by
+  refine ⟨rfl, rfl, rfl, rfl, rfl, rfl, rfl, rfl, rfl, rfl, rfl, rfl, rfl, rfl⟩
+
 /-- tie (T): the cache geometry and lifetime the model uses are the constants of the CURRENT source
     (regenerated into `Mieru.Gen.Consts` from the compiled repository on every run) -/
 theorem cache_constants_match_source :
@@ -465,5 +534,639 @@ theorem cache_constants_match_source :
     (Mieru.SrcCache.nWays : Int) = Mieru.Gen.sourceUserCacheWays ∧
     (Mieru.SrcCache.nSlots : Int) = Mieru.Gen.sourceUserCacheUsers ∧
     (Mieru.Discovery.slots : Int) = Mieru.Gen.sourceUserCacheUsers := by decide
+
+/-! ## SESSIONS: the server branch of `readOneSegment` (existing-session match ∨ `Discover`)
+
+`Mieru.Session` (Model/Session.lean).  Clause 1 of the property is a statement about the SESSIONS a
+server accepts; the theorems below compose the `tryState` theorems with the branch structure of
+the two underlays.  They also say exactly what happens to sessions that never reach `Discover`
+(audit item G1): on UDP a datagram from the ip:port of a live session that opens under that
+session's cipher, on TCP every segment after the first of a connection.  Such a session is
+attributed to the user the carrying session / connection was authenticated as — a user of the
+generation published THEN, not necessarily of the one published now.  "New connection" in the
+property's reload clause is therefore read as: a segment that no live carrier opens (UDP: no live
+session from that ip:port holds a cipher that opens it; TCP: the first segment of a connection).
+For those the clause is a theorem (`udp_new_connection_not_retired`, `tcp_new_connection_not_retired`);
+for the others the exact behaviour of the code is a theorem too (`udp_retired_only_via_live_session`,
+`udp_retired_generation_dies_out` and the TCP twins), reproduced on the real server by
+harness/props/c07_sessions.go. -/
+
+section sessions
+open Mieru.Session
+
+/-- `Registry.Discover` returns only a user of that generation whose credential sealed the segment -/
+theorem discover_sound (g : Gen) (m : Bool) (s : Seg) (u : User) (h : discover g m s = some u) :
+    u ∈ g ∧ s.key = some u.cred := by
+  unfold discover at h
+  split at h
+  · rename_i id o hr
+    obtain ⟨_, ha⟩ := tryState_sound _ _ _ _ _ id o hr
+    obtain ⟨u', hu', hk⟩ := (authOf_true g s id).mp ha
+    rw [hu'] at h
+    have hue : u' = u := Option.some.inj h
+    subst hue
+    exact ⟨(userAt_some g id u' hu').2.2.2, hk⟩
+  · cases h
+
+/-- … preferring a user named by the segment's hint: if a hinted user's credential sealed it, the
+    result is a hinted user whose credential sealed it -/
+theorem discover_prefers_hint (g : Gen) (m : Bool) (s : Seg) (w : User) (hw : w ∈ g)
+    (hh : w.name ∈ s.hinted) (ha : s.key = some w.cred) :
+    ∃ u, discover g m s = some u ∧ u ∈ g ∧ u.name ∈ s.hinted ∧ s.key = some u.cred := by
+  obtain ⟨id, h1, h2, hid⟩ := userAt_of_mem g w hw
+  obtain ⟨u, o, hr, hu, hhu, hau, _⟩ := tryState_hint_precedence g.length (hintOf g s) (authOf g s) s.cached m id
+    ⟨h1, h2⟩ ((hintOf_true g s id).mpr ⟨w, hid, hh⟩) ((authOf_true g s id).mpr ⟨w, hid, ha⟩)
+  obtain ⟨x, hx, hxh⟩ := (hintOf_true g s u).mp hhu
+  obtain ⟨x', hx', hxa⟩ := (authOf_true g s u).mp hau
+  rw [hx] at hx'; cases hx'
+  refine ⟨x, ?_, (userAt_some g u x hx).2.2.2, hxh, hxa⟩
+  unfold discover
+  rw [hr]
+  exact hx
+
+/-- rejection: with optional hints exactly the segments no registered credential sealed; with
+    mandatory hints exactly those no HINTED registered credential sealed -/
+theorem discover_rejects (g : Gen) (m : Bool) (s : Seg) :
+    (m = false → (discover g m s = none ↔ ∀ u ∈ g, s.key ≠ some u.cred)) ∧
+    (m = true → (discover g m s = none ↔ ∀ u ∈ g, u.name ∈ s.hinted → s.key ≠ some u.cred)) := by
+  have hsome : ∀ id o, (tryState g.length (hintOf g s) (authOf g s) s.cached m).user = some (id, o) →
+      ∃ u, discover g m s = some u := by
+    intro id o hr
+    obtain ⟨hu, _⟩ := tryState_sound _ _ _ _ _ id o hr
+    obtain ⟨u, hu'⟩ := userAt_valid g id hu.1 hu.2
+    exact ⟨u, by unfold discover; rw [hr]; exact hu'⟩
+  constructor
+  · intro hm
+    constructor
+    · intro hn u hu hk
+      obtain ⟨id, h1, h2, hid⟩ := userAt_of_mem g u hu
+      obtain ⟨u', o, hr⟩ := (tryState_complete_optional g.length (hintOf g s) (authOf g s) s.cached m hm).mpr
+        ⟨id, ⟨h1, h2⟩, (authOf_true g s id).mpr ⟨u, hid, hk⟩⟩
+      obtain ⟨x, hx⟩ := hsome u' o hr
+      rw [hn] at hx; cases hx
+    · intro hall
+      cases hd : discover g m s with
+      | none => rfl
+      | some u =>
+        obtain ⟨hu, hk⟩ := discover_sound g m s u hd
+        exact absurd hk (hall u hu)
+  · intro hm
+    constructor
+    · intro hn u hu hh hk
+      obtain ⟨x, hx, _⟩ := discover_prefers_hint g m s u hu hh hk
+      rw [hn] at hx; cases hx
+    · intro hall
+      have hnone := (tryState_mandatory g.length (hintOf g s) (authOf g s) s.cached m hm).2 (by
+        intro w hw hhw
+        obtain ⟨x, hx, hxh⟩ := (hintOf_true g s w).mp hhw
+        cases ha : authOf g s w with
+        | false => rfl
+        | true =>
+          obtain ⟨x', hx', hxa⟩ := (authOf_true g s w).mp ha
+          rw [hx] at hx'; cases hx'
+          exact absurd hxa (hall x (userAt_some g w x hx).2.2.2 hxh))
+      unfold discover
+      rw [hnone]
+
+/-- with mandatory hints whoever is returned is named by the hint -/
+theorem discover_mandatory_hinted (g : Gen) (s : Seg) (u : User) (h : discover g true s = some u) :
+    u.name ∈ s.hinted := by
+  unfold discover at h
+  split at h
+  · rename_i id o hr
+    obtain ⟨_, hh, _⟩ := (tryState_mandatory g.length (hintOf g s) (authOf g s) s.cached true rfl).1 id o hr
+    obtain ⟨x, hx, hxh⟩ := (hintOf_true g s id).mp hh
+    rw [hx] at h; cases h
+    exact hxh
+  · cases h
+
+/-- DISTINCT CREDENTIALS: the result of `Registry.Discover` does not depend on what the source cache
+    returned, nor on the source address -/
+theorem discover_cache_source_independent (g : Gen) (m : Bool) (s : Seg)
+    (hd : (g.map (·.cred)).Nodup) (cached' : List Nat) (addr' pick' : Nat) :
+    discover g m { s with cached := cached', addr := addr', pick := pick' } = discover g m s := by
+  have huniq : ∀ v w, IsUser g.length v → IsUser g.length w → authOf g s v = true → authOf g s w = true → v = w := by
+    intro v w hv hw hav haw
+    obtain ⟨uv, huv, hkv⟩ := (authOf_true g s v).mp hav
+    obtain ⟨uw, huw, hkw⟩ := (authOf_true g s w).mp haw
+    have h1 := (userAt_some g v uv huv).2.2.1
+    have h2 := (userAt_some g w uw huw).2.2.1
+    have hc : uv.cred = uw.cred := by rw [hkv] at hkw; exact (Option.some.inj hkw)
+    have hv1 : v - 1 < (g.map (·.cred)).length := by simp only [List.length_map]; have := hv.1; have := hv.2; omega
+    have hw1 : w - 1 < (g.map (·.cred)).length := by simp only [List.length_map]; have := hw.1; have := hw.2; omega
+    have e1 : (g.map (·.cred))[v - 1]? = some uv.cred := by simp [List.getElem?_map, h1]
+    have e2 : (g.map (·.cred))[w - 1]? = some uw.cred := by simp [List.getElem?_map, h2]
+    have : v - 1 = w - 1 := (List.getElem?_inj hv1 hd).mp (by rw [e1, e2, hc])
+    have := hv.1; have := hw.1; omega
+  have hind := tryState_cache_independent g.length (hintOf g s) (authOf g s) s.cached m huniq cached'
+  rw [discover_eq_bind, discover_eq_bind]
+  have h1 : hintOf g { s with cached := cached', addr := addr', pick := pick' } = hintOf g s := rfl
+  have h2 : authOf g { s with cached := cached', addr := addr', pick := pick' } = authOf g s := rfl
+  rw [h1, h2]
+  simp only
+  rw [← hind]
+
+/-! ### UDP -/
+
+/-- CLAUSE 1 FOR SESSIONS (UDP): every session the server accepts is attributed to a user `u` of a
+    generation that was published, and `u`'s credential sealed the session's first segment.  If
+    the segment reached `Registry.Discover` (`via = true`) that generation is the published one, a
+    hinted user whose credential sealed the segment has precedence, and with mandatory hints the
+    user is hinted.  Otherwise (`via = false`) a live session from the same ip:port whose cipher
+    opens the segment exists and the new session inherits its user and generation. -/
+theorem udp_session_attributed (st st' : UServer) (s : Seg) (name gi : Nat) (via : Bool)
+    (hinv : UInv st) (h : udpSeg st s = (st', .accepted name gi via)) :
+    ∃ g u, st.gens[gi]? = some g ∧ u ∈ g ∧ u.name = name ∧ s.key = some u.cred ∧
+      (via = true → matching st.sessions s = [] ∧ gi = st.gens.length - 1 ∧ g = current st.gens ∧
+        ((∃ w ∈ g, w.name ∈ s.hinted ∧ s.key = some w.cred) → name ∈ s.hinted) ∧
+        (st.mandatory = true → name ∈ s.hinted)) ∧
+      (via = false → ∃ x ∈ st.sessions, x.addr = s.addr ∧ s.key = some x.key ∧ x.user = name ∧ x.gen = gi) := by
+  obtain ⟨k, _, _, _, _, horg⟩ := udpSeg_accepted st st' s name gi via h
+  cases horg with
+  | existing x hx ha hk e1 e2 e3 =>
+    obtain ⟨g, hg, u, hu, hn, hc⟩ := hinv x hx
+    subst e2 e3
+    refine ⟨g, u, hg, hu, hn, by rw [hk, hc], (fun hv => by cases hv), fun _ => ⟨x, hx, ha, hk, rfl, rfl⟩⟩
+  | discovered hno u hd e1 e2 e3 =>
+    obtain ⟨hu, hk⟩ := discover_sound _ _ _ _ hd
+    have hne := gens_ne_nil_of_mem_current _ _ hu
+    subst e2 e3
+    refine ⟨current st.gens, u, current_eq_getElem _ hne, hu, rfl, hk, ?_, (fun hv => by cases hv)⟩
+    intro _
+    refine ⟨hno, rfl, rfl, ?_, ?_⟩
+    · rintro ⟨w, hw, hh, ha⟩
+      obtain ⟨u', hd', _, hh', _⟩ := discover_prefers_hint _ st.mandatory s w hw hh ha
+      rw [hd] at hd'; cases hd'
+      exact hh'
+    · intro hm
+      rw [hm] at hd
+      exact discover_mandatory_hinted _ _ _ hd
+
+/-- the attribution invariant is preserved by every event (segments of any kind from anybody,
+    reloads, removals) -/
+theorem udp_inv_step (st : UServer) (e : Ev) (hinv : UInv st) : UInv (udpStep st e).1 := by
+  obtain ⟨m, hg, _⟩ := udpStep_gens st e
+  intro y hy
+  rw [hg]
+  rcases udpStep_sessions st e y hy with hold | ⟨s, name, gi, via, k, he, hacc, hyeq, horg⟩
+  · exact (hinv y hold).mono m
+  · subst hyeq
+    apply Attributed.mono
+    cases horg with
+    | existing x hx ha hk e1 e2 e3 =>
+      subst e1 e2 e3
+      exact hinv x hx
+    | discovered hno u hd e1 e2 e3 =>
+      obtain ⟨hu, hk⟩ := discover_sound _ _ _ _ hd
+      subst e1 e2 e3
+      exact ⟨current st.gens, current_eq_getElem _ (gens_ne_nil_of_mem_current _ _ hu), u, hu, rfl, rfl⟩
+
+/-- hence, over EVERY history: every live session is attributed to a user of a generation that was
+    published, whose credential is the one the session's cipher holds -/
+theorem udp_sessions_always_attributed (st : UServer) (evs : List Ev) (hinv : UInv st) :
+    UInv (udpRun st evs) := by
+  induction evs generalizing st with
+  | nil => exact hinv
+  | cons e es ih => exact ih _ (udp_inv_step st e hinv)
+
+/-- a segment nobody sealed (garbage, forged) creates nothing, whatever sessions exist -/
+theorem udp_garbage_dropped (st : UServer) (s : Seg) (hk : s.key = none) : udpSeg st s = (st, .dropped) := by
+  have hm : matching st.sessions s = [] := by
+    apply List.eq_nil_iff_forall_not_mem.mpr
+    intro x hx
+    have := ((mem_matching _ _ _).mp hx).2.2
+    rw [hk] at this; cases this
+  rw [udpSeg_no_match st s hm]
+  have : discover (current st.gens) st.mandatory s = none := by
+    cases hd : discover (current st.gens) st.mandatory s with
+    | none => rfl
+    | some u => have := (discover_sound _ _ _ _ hd).2; rw [hk] at this; cases this
+  rw [this]
+
+/-- RELOAD CLAUSE, new connections (UDP): a segment that no live session from its ip:port opens and
+    that no credential registered in the PUBLISHED generation sealed is dropped: nothing is
+    created — however recently that credential was still registered -/
+theorem udp_new_connection_not_retired (st : UServer) (s : Seg)
+    (hnew : matching st.sessions s = [])
+    (hret : ∀ u ∈ current st.gens, s.key ≠ some u.cred) : udpSeg st s = (st, .dropped) := by
+  rw [udpSeg_no_match st s hnew]
+  have : discover (current st.gens) st.mandatory s = none := by
+    cases hd : discover (current st.gens) st.mandatory s with
+    | none => rfl
+    | some u => obtain ⟨hu, hk⟩ := discover_sound _ _ _ _ hd; exact absurd hk (hret u hu)
+  rw [this]
+
+/-- … and the exact extent of what the code does otherwise (G1): a session attributed through a
+    credential that is NOT registered in the published generation is accepted only without
+    consulting the registry, through a live session from the same ip:port whose cipher opens the
+    segment, and it inherits that session's user and generation -/
+theorem udp_retired_only_via_live_session (st st' : UServer) (s : Seg) (name gi : Nat) (via : Bool)
+    (hinv : UInv st) (hret : ∀ u ∈ current st.gens, s.key ≠ some u.cred)
+    (h : udpSeg st s = (st', .accepted name gi via)) :
+    via = false ∧ ∃ x ∈ st.sessions, x.addr = s.addr ∧ s.key = some x.key ∧ x.user = name ∧ x.gen = gi := by
+  obtain ⟨g, u, hg, hu, hn, hk, hvia, hex⟩ := udp_session_attributed st st' s name gi via hinv h
+  cases via with
+  | false => exact ⟨rfl, hex rfl⟩
+  | true =>
+    obtain ⟨_, _, hcur, _⟩ := hvia rfl
+    subst hcur
+    exact absurd hk (hret u hu)
+
+/-- … which dies out: once no live session belongs to a retired generation, no session ever belongs
+    to it again — whatever arrives later -/
+theorem udp_retired_generation_dies_out (st : UServer) (evs : List Ev) (gi : Nat)
+    (hretired : gi + 1 < st.gens.length) (hnone : ∀ x ∈ st.sessions, x.gen ≠ gi) :
+    ∀ x ∈ (udpRun st evs).sessions, x.gen ≠ gi := by
+  induction evs generalizing st with
+  | nil => exact hnone
+  | cons e es ih =>
+    obtain ⟨m, hg, _⟩ := udpStep_gens st e
+    apply ih (udpStep st e).1
+    · rw [hg, List.length_append]; omega
+    · intro y hy
+      rcases udpStep_sessions st e y hy with hold | ⟨s, name, gi', via, k, he, hacc, hyeq, horg⟩
+      · exact hnone y hold
+      · subst hyeq
+        cases horg with
+        | existing x hx ha hk e1 e2 e3 => subst e3; exact hnone x hx
+        | discovered hno u hd e1 e2 e3 => subst e3; simp only; omega
+
+/-! ### TCP -/
+
+/-- CLAUSE 1 FOR SESSIONS (TCP): every session the server accepts is attributed to a user `u` of a
+    generation that was published, whose credential sealed the segment.  `via = true`: it is the
+    FIRST segment of a connection, it went through `Registry.Discover` on the published generation
+    (hint precedence, mandatory hints as for UDP).  `via = false`: the connection was established
+    by an earlier first segment and the session inherits the connection's user and generation. -/
+theorem tcp_session_attributed (st st' : TServer) (s : Seg) (name gi : Nat) (via : Bool)
+    (hinv : TInv st) (h : tcpSeg st s = (st', .accepted name gi via)) :
+    ∃ g u, st.gens[gi]? = some g ∧ u ∈ g ∧ u.name = name ∧ s.key = some u.cred ∧
+      (via = true → st.conns.lookup s.addr = none ∧ gi = st.gens.length - 1 ∧ g = current st.gens ∧
+        ((∃ w ∈ g, w.name ∈ s.hinted ∧ s.key = some w.cred) → name ∈ s.hinted) ∧
+        (st.mandatory = true → name ∈ s.hinted)) ∧
+      (via = false → ∃ k, st.conns.lookup s.addr = some (.est k name gi) ∧ s.key = some k) := by
+  have hf := tcpSeg_frame st s
+  rw [h] at hf
+  obtain ⟨k, _, _, _, horg⟩ := hf.accepted name gi via rfl
+  cases horg with
+  | established hc hk =>
+    obtain ⟨g, hg, u, hu, hn, hcr⟩ := hinv.2 _ _ _ _ (lookup_mem _ _ _ hc)
+    exact ⟨g, u, hg, hu, hn, by rw [hk, hcr], (fun hv => by cases hv), fun _ => ⟨k, hc, hk⟩⟩
+  | discovered hno u hd e1 e2 e3 =>
+    obtain ⟨hu, hk⟩ := discover_sound _ _ _ _ hd
+    have hne := gens_ne_nil_of_mem_current _ _ hu
+    subst e2 e3
+    refine ⟨current st.gens, u, current_eq_getElem _ hne, hu, rfl, hk, ?_, (fun hv => by cases hv)⟩
+    intro _
+    refine ⟨hno, rfl, rfl, ?_, ?_⟩
+    · rintro ⟨w, hw, hh, ha⟩
+      obtain ⟨u', hd', _, hh', _⟩ := discover_prefers_hint _ st.mandatory s w hw hh ha
+      rw [hd] at hd'; cases hd'
+      exact hh'
+    · intro hm
+      rw [hm] at hd
+      exact discover_mandatory_hinted _ _ _ hd
+
+theorem tcp_inv_step (st : TServer) (e : Ev) (hinv : TInv st) : TInv (tcpStep st e).1 := by
+  cases e with
+  | reload g => exact ⟨fun x hx => (hinv.1 x hx).mono [g], fun a k u gg h => (hinv.2 a k u gg h).mono [g]⟩
+  | gone a sid =>
+    refine ⟨fun x hx => ?_, hinv.2⟩
+    simp only [tcpStep, List.mem_filter] at hx
+    exact hinv.1 x hx.1
+  | connClosed a =>
+    refine ⟨fun x hx => ?_, fun a' k u g hin => ?_⟩
+    · simp only [tcpStep, List.mem_filter] at hx
+      exact hinv.1 x hx.1
+    · simp only [tcpStep, List.mem_filter] at hin
+      exact hinv.2 a' k u g hin.1
+  | seg s =>
+    have hf := tcpSeg_frame st s
+    have horg : ∀ k name gi via, TOrigin st s k name gi via → Attributed st.gens k name gi := by
+      intro k name gi via ho
+      cases ho with
+      | established hc hk => exact hinv.2 _ _ _ _ (lookup_mem _ _ _ hc)
+      | discovered hno u hd e1 e2 e3 =>
+        obtain ⟨hu, hk⟩ := discover_sound _ _ _ _ hd
+        subst e1 e2 e3
+        exact ⟨current st.gens, current_eq_getElem _ (gens_ne_nil_of_mem_current _ _ hu), u, hu, rfl, rfl⟩
+    refine ⟨fun y hy => ?_, fun a k u g hin => ?_⟩
+    · simp only [tcpStep] at hy ⊢
+      rw [hf.gens]
+      rcases hf.sessions y hy with hold | ⟨name, gi, via, k, _, hyeq, _, _, ho⟩
+      · exact hinv.1 y hold
+      · subst hyeq; exact horg _ _ _ _ ho
+    · simp only [tcpStep] at hin ⊢
+      rw [hf.gens]
+      rcases hf.conns a k u g hin with hold | ⟨_, _, ho⟩
+      · exact hinv.2 a k u g hold
+      · exact horg _ _ _ _ ho
+
+/-- over EVERY history: every live session and every established connection is attributed to a user
+    of a generation that was published, whose credential is the one its cipher holds -/
+theorem tcp_sessions_always_attributed (st : TServer) (evs : List Ev) (hinv : TInv st) :
+    TInv (tcpRun st evs) := by
+  induction evs generalizing st with
+  | nil => exact hinv
+  | cons e es ih => exact ih _ (tcp_inv_step st e hinv)
+
+/-- RELOAD CLAUSE, new connections (TCP): the first segment of a connection that no credential
+    registered in the PUBLISHED generation sealed creates no session and the connection is closed -/
+theorem tcp_new_connection_not_retired (st : TServer) (s : Seg)
+    (hnew : st.conns.lookup s.addr = none)
+    (hret : ∀ u ∈ current st.gens, s.key ≠ some u.cred) : tcpSeg st s = tKill st s.addr := by
+  have : discover (current st.gens) st.mandatory s = none := by
+    cases hd : discover (current st.gens) st.mandatory s with
+    | none => rfl
+    | some u => obtain ⟨hu, hk⟩ := discover_sound _ _ _ _ hd; exact absurd hk (hret u hu)
+  unfold tcpSeg
+  rw [hnew]
+  simp only [this]
+
+/-- … and what the code does otherwise (G1): a session attributed through a credential that is not
+    registered in the published generation is accepted only on a connection that was established
+    (by its own first segment) with that credential, and inherits the connection's user and
+    generation -/
+theorem tcp_retired_only_via_established_connection (st st' : TServer) (s : Seg) (name gi : Nat) (via : Bool)
+    (hinv : TInv st) (hret : ∀ u ∈ current st.gens, s.key ≠ some u.cred)
+    (h : tcpSeg st s = (st', .accepted name gi via)) :
+    via = false ∧ ∃ k, st.conns.lookup s.addr = some (.est k name gi) ∧ s.key = some k := by
+  obtain ⟨g, u, hg, hu, hn, hk, hvia, hex⟩ := tcp_session_attributed st st' s name gi via hinv h
+  cases via with
+  | false => exact ⟨rfl, hex rfl⟩
+  | true =>
+    obtain ⟨_, _, hcur, _⟩ := hvia rfl
+    subst hcur
+    exact absurd hk (hret u hu)
+
+/-- … which dies out with the last connection of the retired generation -/
+theorem tcp_retired_generation_dies_out (st : TServer) (evs : List Ev) (gi : Nat)
+    (hretired : gi + 1 < st.gens.length)
+    (hnone : (∀ x ∈ st.sessions, x.gen ≠ gi) ∧ (∀ a k u g, (a, CState.est k u g) ∈ st.conns → g ≠ gi)) :
+    (∀ x ∈ (tcpRun st evs).sessions, x.gen ≠ gi) ∧
+    (∀ a k u g, (a, CState.est k u g) ∈ (tcpRun st evs).conns → g ≠ gi) := by
+  induction evs generalizing st with
+  | nil => exact hnone
+  | cons e es ih =>
+    apply ih (tcpStep st e).1
+    · cases e with
+      | reload g => simp only [tcpStep, List.length_append, List.length_singleton]; omega
+      | gone a sid => exact hretired
+      | connClosed a => exact hretired
+      | seg s => simp only [tcpStep]; rw [(tcpSeg_frame st s).gens]; exact hretired
+    · cases e with
+      | reload g => exact hnone
+      | gone a sid =>
+        refine ⟨fun x hx => ?_, hnone.2⟩
+        simp only [tcpStep, List.mem_filter] at hx
+        exact hnone.1 x hx.1
+      | connClosed a =>
+        refine ⟨fun x hx => ?_, fun a' k u g hin => ?_⟩
+        · simp only [tcpStep, List.mem_filter] at hx
+          exact hnone.1 x hx.1
+        · simp only [tcpStep, List.mem_filter] at hin
+          exact hnone.2 a' k u g hin.1
+      | seg s =>
+        have hf := tcpSeg_frame st s
+        have horg : ∀ k name g via, TOrigin st s k name g via → g ≠ gi := by
+          intro k name g via ho
+          cases ho with
+          | established hc hk => exact hnone.2 _ _ _ _ (lookup_mem _ _ _ hc)
+          | discovered hno u hd e1 e2 e3 => subst e3; omega
+        refine ⟨fun y hy => ?_, fun a k u g hin => ?_⟩
+        · simp only [tcpStep] at hy
+          rcases hf.sessions y hy with hold | ⟨name, g, via, k, _, hyeq, _, _, ho⟩
+          · exact hnone.1 y hold
+          · subst hyeq; exact horg _ _ _ _ ho
+        · simp only [tcpStep] at hin
+          rcases hf.conns a k u g hin with hold | ⟨_, _, ho⟩
+          · exact hnone.2 a k u g hold
+          · exact horg _ _ _ _ ho
+
+/-! ### non-vacuity, and the G1 behaviour exhibited
+
+alice (name 1, credential 10) and bob (name 2, credential 20); then a reload that removes bob. -/
+
+def g0 : Gen := [⟨1, 10⟩, ⟨2, 20⟩]
+def g1 : Gen := [⟨1, 10⟩]
+/-- bob's honest open request: sealed under his credential, hint names him -/
+def bobOpen (addr sid : Nat) : Seg :=
+  { addr := addr, key := some 20, hinted := [2], openReq := true, sid := sid, cached := [], pick := 0 }
+
+/-- UDP: bob (address 7) opens a session; the user list is reloaded without bob; the same ip:port
+    opens ANOTHER session — accepted without the registry, attributed to bob of generation 0; from a
+    fresh ip:port the same credential is refused; after bob's sessions are gone it is refused from
+    address 7 too -/
+example : udpOuts ⟨[g0], false, []⟩
+    [.seg (bobOpen 7 1), .reload g1, .seg (bobOpen 7 2), .seg (bobOpen 8 3),
+     .gone 7 1, .gone 7 2, .seg (bobOpen 7 4)]
+    = [.accepted 2 0 true, .quiet, .accepted 2 0 false, .dropped, .quiet, .quiet, .dropped] := by decide
+
+/-- TCP: the same on one connection (7): sessions keep being opened on the established connection
+    after the reload, even when no session is left on it; a new connection (8) is refused -/
+example : tcpOuts ⟨[g0], false, [], []⟩
+    [.seg (bobOpen 7 1), .reload g1, .seg (bobOpen 7 2), .seg (bobOpen 8 3),
+     .gone 7 1, .gone 7 2, .seg (bobOpen 7 4), .connClosed 7, .seg (bobOpen 7 5)]
+    = [.accepted 2 0 true, .quiet, .accepted 2 0 false, .dropped, .quiet, .quiet, .accepted 2 0 false,
+       .quiet, .dropped] := by decide
+
+/-- the existing-session path does not look at the hint: with MANDATORY hints a segment sealed by bob
+    whose hint names nobody is accepted from the ip:port of bob's live session and refused from any
+    other — so the source-independence clause holds for `Registry.Discover`
+    (`discover_cache_source_independent`), not for segments that bypass it -/
+example : udpOuts ⟨[g0], true, []⟩
+    [.seg (bobOpen 7 1), .seg { bobOpen 7 2 with hinted := [] }, .seg { bobOpen 8 3 with hinted := [] }]
+    = [.accepted 2 0 true, .accepted 2 0 false, .dropped] := by decide
+
+end sessions
+
+/-! ## RELOAD: `SetUsers` ‖ `discoverUser`, with the user sets (`Mieru.Reload`) -/
+
+section reload
+open Mieru.Session Mieru.Reload
+
+theorem Reach.trans {rc mand : Bool} {seg : Seg} {a b c : Sys}
+    (h1 : Reach rc mand seg a b) (h2 : Reach rc mand seg b c) : Reach rc mand seg a c := by
+  induction h2 with
+  | refl => exact h1
+  | step _ hs ih => exact .step ih hs
+
+/-- invariant of the transition system, over ALL interleavings: the generations only grow, and a
+    pending or returned outcome was computed on a generation published since the discovery started;
+    an accepted user is a user of THAT generation whose credential sealed the segment -/
+theorem reload_inv (rc mand : Bool) (seg : Seg) (s0 s : Sys) (h0 : s0.disc = .idle)
+    (hr : Reach rc mand seg s0 s) :
+    (∃ m, s.gens = s0.gens ++ m) ∧
+    (∀ gi res, (s.disc = .tried gi res ∨ s.disc = .returned gi res) →
+      s0.published ≤ gi ∧ gi ≤ s.published ∧
+      ∀ u, res = some u → ∃ g, s.gens[gi]? = some g ∧ u ∈ g ∧ seg.key = some u.cred) := by
+  induction hr with
+  | refl =>
+    refine ⟨⟨[], by simp⟩, ?_⟩
+    intro gi res hd
+    rw [h0] at hd
+    rcases hd with hd | hd <;> cases hd
+  | @step b c hab hstep ih =>
+    obtain ⟨⟨m, hm⟩, hdisc⟩ := ih
+    have hpub : s0.published ≤ b.published := by
+      simp only [Sys.published, hm, List.length_append]; omega
+    cases hstep with
+    | reload g =>
+      refine ⟨⟨m ++ [g], by simp [hm]⟩, ?_⟩
+      intro gi res hd
+      obtain ⟨h1, h2, h3⟩ := hdisc gi res hd
+      refine ⟨h1, by simp only [Sys.published, List.length_append, List.length_singleton] at h2 ⊢; omega, ?_⟩
+      intro u hu
+      obtain ⟨gg, hg, hrest⟩ := h3 u hu
+      exact ⟨gg, getElem?_append_some _ _ _ _ hg, hrest⟩
+    | loadEmpty hidle he =>
+      refine ⟨⟨m, hm⟩, ?_⟩
+      intro gi res hd
+      simp only [reduceCtorEq, DPhase.returned.injEq, false_or] at hd
+      obtain ⟨rfl, rfl⟩ := hd
+      exact ⟨hpub, Nat.le_refl _, fun u hu => by cases hu⟩
+    | load hidle hne cached =>
+      refine ⟨⟨m, hm⟩, ?_⟩
+      intro gi res hd
+      simp only [DPhase.tried.injEq, reduceCtorEq, or_false] at hd
+      obtain ⟨rfl, rfl⟩ := hd
+      refine ⟨hpub, Nat.le_refl _, ?_⟩
+      intro u hu
+      obtain ⟨hmem, hk⟩ := discover_sound _ _ _ _ hu
+      exact ⟨current b.gens, current_eq_getElem _ (gens_ne_nil_of_mem_current _ _ hmem), hmem, hk⟩
+    | retry gi res hd hreq hne =>
+      refine ⟨⟨m, hm⟩, ?_⟩
+      intro gi' res' hd'
+      rcases hd' with hd' | hd' <;> cases hd'
+    | ret gi res hd hok =>
+      refine ⟨⟨m, hm⟩, ?_⟩
+      intro gi' res' hd'
+      simp only [reduceCtorEq, DPhase.returned.injEq, false_or] at hd'
+      obtain ⟨rfl, rfl⟩ := hd'
+      exact hdisc gi res (Or.inl hd)
+
+/-- OVER ALL INTERLEAVINGS of reloads with one discovery (with or without `requireCurrent`): a
+    discovery that returns user `u` attributed to generation `gi`: `u` is a user of generation `gi`
+    and `u`'s credential sealed the segment; generation `gi` was the published one at some instant
+    after the discovery started (its index lies between the one published at the start and the one
+    published now; generation `i` is the published one from its own `SetUsers` to the next) -/
+theorem discover_result_authentic_and_current (rc mand : Bool) (seg : Seg) (s0 s : Sys)
+    (h0 : s0.disc = .idle) (hr : Reach rc mand seg s0 s) (gi : Nat) (u : User)
+    (hg : s.disc = .returned gi (some u)) :
+    s0.published ≤ gi ∧ gi ≤ s.published ∧ ∃ g, s.gens[gi]? = some g ∧ u ∈ g ∧ seg.key = some u.cred := by
+  obtain ⟨h1, h2, h3⟩ := (reload_inv rc mand seg s0 s h0 hr).2 gi (some u) (Or.inr hg)
+  exact ⟨h1, h2, h3 u rfl⟩
+
+/-- with `requireCurrent` (TCP) the outcome is handed over only at an instant at which its
+    generation IS the published one -/
+theorem discover_requireCurrent_at_return (mand : Bool) (seg : Seg) (s s' : Sys) (gi : Nat) (res : Option User)
+    (hstep : Step true mand seg s s') (hbefore : ∀ g r, s.disc ≠ .returned g r)
+    (hafter : s'.disc = .returned gi res) : gi = s.published := by
+  cases hstep with
+  | reload g => exact absurd hafter (hbefore gi res)
+  | loadEmpty hidle he => simp only [DPhase.returned.injEq] at hafter; exact hafter.1.symm
+  | load hidle hne cached => simp at hafter
+  | retry gi' res' hd hreq hne => simp at hafter
+  | ret gi' res' hd hok =>
+    simp only [DPhase.returned.injEq] at hafter
+    obtain ⟨rfl, _⟩ := hafter
+    rcases hok with h | h
+    · cases h
+    · exact h.symm
+
+/-- THE RELOAD CLAUSE for `Registry.Discover`: a credential `c` that is registered in no generation
+    published since the discovery started — in particular one that a `SetUsers` which RETURNED
+    before the discovery started has removed — never authenticates it: no interleaving returns a
+    user for a segment sealed under `c` -/
+theorem discover_never_retired_credential (rc mand : Bool) (seg : Seg) (s0 s : Sys)
+    (h0 : s0.disc = .idle) (hr : Reach rc mand seg s0 s) (c : Nat) (hk : seg.key = some c)
+    (hretired : ∀ i g, s0.published ≤ i → s.gens[i]? = some g → ∀ u ∈ g, u.cred ≠ c) :
+    ∀ gi u, s.disc ≠ .returned gi (some u) := by
+  intro gi u hg
+  obtain ⟨h1, _, g, hgg, hu, hku⟩ := discover_result_authentic_and_current rc mand seg s0 s h0 hr gi u hg
+  rw [hk] at hku
+  exact hretired gi g h1 hgg u hu (Option.some.inj hku).symm
+
+theorem reach_reloads (rc mand : Bool) (seg : Seg) (d : DPhase) (gens seam : List Gen) :
+    Reach rc mand seg ⟨gens, d⟩ ⟨gens ++ seam, d⟩ := by
+  induction seam generalizing gens with
+  | nil => simp only [List.append_nil]; exact .refl _
+  | cons g t ih =>
+    have h1 : Reach rc mand seg ⟨gens, d⟩ ⟨gens ++ [g], d⟩ := .step (.refl _) (.reload _ g)
+    have h2 := ih (gens ++ [g])
+    rw [List.append_assoc] at h2
+    exact Reach.trans h1 h2
+
+/-- the loop as a function of a schedule (`Mieru.Reload.run`, the definition the harness compares with
+    `discoverUser` attempt by attempt) only produces outcomes of the transition system: every theorem
+    above applies to them -/
+theorem run_reach (rc mand : Bool) (seg : Seg) (sched : List (List Nat × List Gen)) (gens : List Gen)
+    (acc : List Attempt) (gens' : List Gen) (atts : List Attempt) (gi : Nat) (res : Option User)
+    (h : run rc mand seg gens sched acc = (gens', atts, some (gi, res))) :
+    Reach rc mand seg ⟨gens, .idle⟩ ⟨gens', .returned gi res⟩ := by
+  induction sched generalizing gens acc with
+  | nil => simp [run] at h
+  | cons p rest ih =>
+    obtain ⟨cached, seam⟩ := p
+    unfold run at h
+    split at h
+    · rename_i he
+      simp only [Prod.mk.injEq, Option.some.injEq] at h
+      obtain ⟨rfl, _, rfl, rfl⟩ := h
+      exact .step (.refl _) (.loadEmpty _ rfl he)
+    · rename_i hne
+      have hload : Reach rc mand seg ⟨gens, .idle⟩
+          ⟨gens, .tried (gens.length - 1) (discover (current gens) mand { seg with cached := cached })⟩ :=
+        .step (.refl _) (.load _ rfl hne cached)
+      have hseam := reach_reloads rc mand seg
+        (.tried (gens.length - 1) (discover (current gens) mand { seg with cached := cached })) gens seam
+      have hmid := Reach.trans hload hseam
+      simp only at h
+      split at h
+      · rename_i hc
+        have hretry : Reach rc mand seg ⟨gens, .idle⟩ ⟨gens ++ seam, .idle⟩ :=
+          .step hmid (.retry _ _ _ rfl hc.1 hc.2)
+        exact Reach.trans hretry (ih _ _ h)
+      · rename_i hc
+        simp only [Prod.mk.injEq, Option.some.injEq] at h
+        obtain ⟨rfl, _, rfl, rfl⟩ := h
+        refine .step hmid (.ret _ _ _ rfl ?_)
+        cases rc with
+        | false => exact Or.inl rfl
+        | true =>
+          right
+          simp only [true_and, Decidable.not_not] at hc
+          exact hc
+
+/-! non-vacuity: alice (1, credential 10), bob (2, credential 20); `g1` has lost bob -/
+
+def bobSeg : Seg := { addr := 0, key := some 20, hinted := [2], openReq := true, sid := 1, cached := [], pick := 0 }
+
+/-- `requireCurrent`: a reload that removes bob lands between `tryState` and the re-check — the
+    stale acceptance is discarded and the retry on the new generation rejects; the two attempts ran
+    bob's decryptor, then alice's -/
+example : run true false bobSeg [g0] [([], [g1]), ([], [])] []
+    = ([g0, g1], [⟨0, [2], some ⟨2, 20⟩⟩, ⟨1, [1], none⟩], some (1, none)) := by decide
+
+/-- no `requireCurrent` (UDP): the same reload during the discovery — the result computed on the
+    generation that was published when the discovery loaded it is returned; it IS a generation
+    published after the discovery started, as `discover_result_authentic_and_current` says, but it is
+    retired by the time of the return -/
+example : run false false bobSeg [g0] [([], [g1])] []
+    = ([g0, g1], [⟨0, [2], some ⟨2, 20⟩⟩], some (0, some ⟨2, 20⟩)) := by decide
+
+/-- a discovery that STARTS after the reload has completed never returns bob, with or without
+    `requireCurrent` (instance of `discover_never_retired_credential`: published index 1 at the start) -/
+example : ∀ rc, (run rc false bobSeg [g0, g1] [([2], [])] []).2.2 = some (1, none) := by decide
+
+/-- two reloads inside one discovery, the second during the retry -/
+example : run true false bobSeg [g0] [([], [g1]), ([], [g0]), ([], [])] []
+    = ([g0, g1, g0], [⟨0, [2], some ⟨2, 20⟩⟩, ⟨1, [1], none⟩, ⟨2, [2], some ⟨2, 20⟩⟩], some (2, some ⟨2, 20⟩)) := by decide
+
+/-- a reload to an empty user set: the retry returns the error at once -/
+example : run true false bobSeg [g0] [([], [[]]), ([], [])] [] = ([g0, []], [⟨0, [2], some ⟨2, 20⟩⟩], some (1, none)) := by
+  decide
+
+end reload
 
 end Mieru.C07
